@@ -209,6 +209,22 @@ def run(tier):
                    "%s lookup in %s is given text that is not lower-cased (%s): the spelling's letter case changes the result" % (what, k.split("::")[-1], why),
                    loc=loc_of(P.body[k]["blocks"][bb]["tspan"]))
     rep.floor("keyword lookup sites", nsites, 4)
+    # symbol references and names in mnemonic position (macro calls): every key that reaches a symbol map or the macro table is lower-cased
+    import rules_C10
+    tables = [(k, bb, t, f, m) for k, bb, t, f, m in rules_C10.map_sites(P, "context::CommonContext", rules_C10.MAPS)] + \
+             [(k, bb, t, f, m) for k, bb, t, f, m in rules_C10.map_sites(P, "parser::Macro", ("macroses",))]
+    for k in ("builder::pass0::macro_expand",):
+        if k in P.body:
+            for bb, t, name, tg in P.call_sites(k):
+                if rules_C10.MAP_METHODS.match(MU.callee_names(t)[1]) and (k, bb) not in {(x[0], x[1]) for x in tables}:
+                    tables.append((k, bb, t, "macroses", MU.callee_names(t)[1].rsplit("::", 1)[-1]))
+    for k, bb, t, fname, meth in tables:
+        ok, why = N.operand(k, t["args"][1])
+        rep.ob("C14.case|symbol|%s|%s|%s" % (fname, k, meth), ok,
+               "%s.%s in %s: the name is lower-cased before it is used (%s)" % (fname, meth, k.split("::")[-1], why) if ok else
+               "%s.%s in %s: the name is used as spelled (%s): the letter case of a symbol reference or macro call changes the result" % (fname, meth, k.split("::")[-1], why),
+               loc=loc_of(P.body[k]["blocks"][bb]["tspan"]))
+    rep.floor("symbol / macro table access sites", len(tables), 12)
     # function names in the evaluator: every comparison of a string with one of the function-name literals has a lower-cased left side
     FN = {"low", "high", "byte2", "byte3", "byte4", "lwrd", "hwrd", "exp2", "log2", "page"}
     # the evaluator function: whichever body reachable from Expr::run compares strings with the function-name literals
